@@ -103,6 +103,7 @@ type FnCtx struct {
 	ghostFns    map[string]string // ghost function name -> current SMT symbol
 	axiomsDone  map[string]bool
 	frameExcept []Val
+	frameWhole  []string // element heaps the function may write anywhere (assigns heap(T))
 	dispatchDepth int
 	knownInts   map[string]int64
 	openBound   []string // bound variables of the quantifiers currently being evaluated
